@@ -5,6 +5,7 @@ CONSTANTS ChildCodes = {0, 1, 77}
   DeliverTrap = TRUE
   LowByteSignal = FALSE
   RelabelOnCancel = FALSE
+  ContainerSigTable = 0
   WaitGroup = FALSE
 SPECIFICATION Spec
 INVARIANTS VerdictOK ErrorOK RunnerErrorOnlyForRunner BadExecIsRunnerError ChildLimitImpl FateOK ImplExitOK
